@@ -26,6 +26,42 @@ func (c *Ctx) possibleOps(atoms []Atom, opKey string) map[string]bool {
 				}
 			}
 		}
+		// a helper predicate applied to the operator (e.g. isLeafOp(e.Op)): union over the helper's
+		// paths that return the required value
+		if a.Kind == "call" && a.Fn != nil && inModule(a.Fn) && a.Val == opKey && len(a.Fn.Params) == 1 {
+			s := c.boolSummaryOf(a.Fn)
+			if !s.ok {
+				continue
+			}
+			sets := s.TrueSets
+			if !a.Pos {
+				sets = s.FalseSets
+			}
+			allowed := map[string]bool{}
+			for _, set := range sets {
+				sub := map[string]bool{}
+				for name := range c.operatorConsts() {
+					sub["expr."+name] = true
+				}
+				for _, x := range set {
+					if x.Kind == "cmp" && x.Subj == "$0" {
+						for o := range sub {
+							if x.Op == "==" && o != x.Val || x.Op == "!=" && o == x.Val {
+								delete(sub, o)
+							}
+						}
+					}
+				}
+				for o := range sub {
+					allowed[o] = true
+				}
+			}
+			for o := range possible {
+				if !allowed[o] {
+					delete(possible, o)
+				}
+			}
+		}
 	}
 	return possible
 }
